@@ -1657,12 +1657,22 @@ func (x *Decimal) BitsExp() ([]Word, int32) {
 // The mant argument must either be a newly created Word slice or obtained as a
 // result of a call to BitsExp with the same receiver.
 //
+// If z's precision is 0, it is changed to the number of digits held by mant or
+// DefaultDecimalPrec, whichever is larger (and rounding will have no effect).
+//
 // SetBitsExp is intended to support implementation of missing low-level Decimal
 // functionality outside this package; it should be avoided otherwise.
 func (z *Decimal) SetBitsExp(mant []Word, exp int64) *Decimal {
 	z.mant = dec(mant).norm()
 	z.neg = false
 	if len(z.mant) > 0 {
+		if z.prec == 0 {
+			digits := uint64(len(z.mant)) * _DW
+			if digits > MaxPrec {
+				digits = MaxPrec
+			}
+			z.prec = umax32(uint32(digits), DefaultDecimalPrec)
+		}
 		z.setExpAndRound(exp-dnorm(z.mant)-int64(len(mant)-len(z.mant))*_DW, 0)
 	} else {
 		z.acc = Exact
